@@ -48,6 +48,7 @@ _mutable_spec: tuple[tuple[type[t.Any], frozenset[str]], ...] = (
                 "clear",
                 "difference_update",
                 "discard",
+                "intersection_update",
                 "pop",
                 "remove",
                 "symmetric_difference_update",
@@ -59,12 +60,7 @@ _mutable_spec: tuple[tuple[type[t.Any], frozenset[str]], ...] = (
         abc.MutableMapping,
         frozenset(["clear", "pop", "popitem", "setdefault", "update"]),
     ),
-    (
-        abc.MutableSequence,
-        frozenset(
-            ["append", "clear", "pop", "reverse", "insert", "sort", "extend", "remove"]
-        ),
-    ),
+    # deque is also a MutableSequence, it must be matched first.
     (
         deque,
         frozenset(
@@ -74,11 +70,19 @@ _mutable_spec: tuple[tuple[type[t.Any], frozenset[str]], ...] = (
                 "clear",
                 "extend",
                 "extendleft",
+                "insert",
                 "pop",
                 "popleft",
                 "remove",
+                "reverse",
                 "rotate",
             ]
+        ),
+    ),
+    (
+        abc.MutableSequence,
+        frozenset(
+            ["append", "clear", "pop", "reverse", "insert", "sort", "extend", "remove"]
         ),
     ),
 )
